@@ -28,6 +28,44 @@ from harness.zipwriter import write_zip
 
 DIGITS = "0123456789"
 
+# hand-modelled functions: a changed AST escalates the search (ck.pins_changed), it is not a verdict
+PINS = [
+    ("androguard/core/apk/__init__.py", "APK.__init__"),
+    ("androguard/core/apk/__init__.py", "APK.get_files"),
+    ("androguard/core/apk/__init__.py", "APK.get_file"),
+    ("androguard/core/apk/__init__.py", "APK.get_dex_names"),
+    ("androguard/core/apk/__init__.py", "APK.get_all_dex"),
+    ("androguard/core/apk/__init__.py", "APK.is_multidex"),
+]
+
+
+# ------------------------------------------------------------------ CRC-32 suffix forging
+def _crc_table():
+    t = []
+    for i in range(256):
+        c = i
+        for _ in range(8):
+            c = (c >> 1) ^ 0xEDB88320 if c & 1 else c >> 1
+        t.append(c)
+    return t
+
+
+_CRC_T = _crc_table()
+_CRC_REV = {v >> 24: i for i, v in enumerate(_CRC_T)}
+
+
+def crc_forge(prefix: bytes, target: int) -> bytes:
+    """the 4 bytes s with zlib.crc32(prefix + s) == target (standard table reversal)"""
+    import zlib
+    v = target ^ 0xFFFFFFFF
+    for _ in range(4):
+        i = _CRC_REV[v >> 24]
+        v = (((v ^ _CRC_T[i]) << 8) & 0xFFFFFFFF) | i
+    s = (v ^ zlib.crc32(prefix) ^ 0xFFFFFFFF).to_bytes(4, "little")
+    if zlib.crc32(prefix + s) != target:
+        raise ToolFailure("crc_forge: forged suffix does not reach the target CRC-32")
+    return s
+
 
 # ------------------------------------------------------------------ independent specification
 def spec(n: str) -> bool:
@@ -162,7 +200,11 @@ def oracle(case, obs):
 
 def small(case):
     """the case as it goes into a replay file"""
-    return {"entries": [[n, h, bool(c)] for n, h, c in case["entries"]], "queries": list(case.get("queries", []))}
+    out = {"entries": [[n, h, bool(c)] for n, h, c in case["entries"]], "queries": list(case.get("queries", []))}
+    for k in ("ops", "note"):
+        if k in case:
+            out[k] = case[k]
+    return out
 
 
 def run_case(ck: Check, case, reqs, reals):
@@ -330,6 +372,234 @@ def gen_archive(rng):
     return {"entries": entries, "queries": qs}
 
 
+
+def gen_collision_archive(rng):
+    """an archive holding groups of entries that are equal in (CRC-32, size) but not in content (forged),
+    plus the controls: identical duplicates, empty files, same size / different CRC, same CRC / different size"""
+    import zlib
+    entries, note = [], []
+    used = set()
+
+    def names_for(k, dex):
+        if dex:
+            pool = [d for d in DEXES if d not in used]
+            rng.shuffle(pool)
+            out = pool[:k]
+        else:
+            out = []
+            while len(out) < k:
+                c = rng.choice(REGULAR + [f"res/drawable-{rng.choice(['m','h','xh','xxh'])}dpi/icon{rng.randrange(9)}.bin",
+                                          f"assets/blob{rng.randrange(99)}.bin"])
+                if c not in used and c not in out and not c.endswith("/"):
+                    out.append(c)
+        used.update(out)
+        return out
+
+    def add(group, kind):
+        for n, d in group:
+            entries.append([n, d.hex(), rng.random() < 0.5])
+        note.append(f"{kind}: " + ", ".join(ascii(n) for n, _ in group))
+
+    for _ in range(rng.choice((1, 1, 1, 2))):
+        k = rng.choice((2, 2, 3))
+        size = rng.choice((5, 6, 8, 16, 33, 64, 200, 700))     # CRC-32 is a bijection on 4 bytes: no collision below 5
+        base = rng.randbytes(size)
+        group = [base]
+        while len(group) < k:
+            pre = rng.randbytes(size - 4)
+            c = pre + crc_forge(pre, zlib.crc32(base))
+            if c not in group:
+                group.append(c)
+        add(list(zip(names_for(k, rng.random() < 0.5), group)),
+            f"forged (last 4 bytes computed) equal CRC-32 {zlib.crc32(base):08x} and equal size {size}, different content")
+    for ctl in rng.sample(range(5), rng.randrange(1, 5)):
+        dex = rng.random() < 0.3
+        if ctl == 0:
+            d = gen_data(rng)
+            add([(n, d) for n in names_for(2, dex)], "control identical duplicates")
+        elif ctl == 1:
+            add([(n, b"") for n in names_for(rng.choice((2, 3)), dex)], "control empty files")
+        elif ctl == 2:
+            size = rng.choice((1, 4, 16, 100))
+            a, b = rng.randbytes(size), rng.randbytes(size)
+            if zlib.crc32(a) != zlib.crc32(b):
+                add(list(zip(names_for(2, dex), (a, b))), "control same size, different CRC-32")
+        elif ctl == 3:
+            a = rng.randbytes(rng.choice((4, 9, 40)))
+            pre = rng.randbytes(len(a) + rng.randrange(1, 9) - 4)
+            add(list(zip(names_for(2, dex), (a, pre + crc_forge(pre, zlib.crc32(a))))),
+                "control forged same CRC-32, different size")
+        else:
+            for n in names_for(rng.randrange(1, 4), False):
+                entries.append([n, gen_data(rng).hex(), rng.random() < 0.5])
+    rng.shuffle(entries)
+    names = [e[0] for e in entries]
+    qs = [q for q in (names[0] + "x", "classes.dex", rand_name(rng)) if q not in names and "\x00" not in q][:2]
+    return {"entries": entries, "queries": qs, "note": note}
+
+
+def gen_ops(rng, case, n):
+    """a seeded interleaving of the five observers on ONE APK object; names repeat, some are missing"""
+    names = [e[0] for e in case["entries"]]
+    missing = list(case.get("queries", [])) or ["no/such/entry"]
+    ops = []
+    for _ in range(n):
+        r = rng.random()
+        if r < 0.6:
+            if names and rng.random() < 0.85:
+                q = rng.choice(names) if not ops or rng.random() < 0.7 else rng.choice([o[1] for o in ops if o[0] == "get"] or names)
+            else:
+                q = rng.choice(missing)
+            ops.append(["get", q])
+        else:
+            ops.append([rng.choice(("files", "dexnames", "alldex", "alldex", "multidex"))])
+    if names:
+        # every entry is read at least twice, once in each direction
+        ops += [["get", n] for n in names] + [["get", n] for n in reversed(names)]
+    return ops
+
+
+def run_history(case):
+    """the ops of case["ops"] on one real APK object. Returns (real_line, bad):
+    real_line in the format of the `apk` request when every observation agrees with the first of its
+    kind (history-independent), else `history-dependent …`; bad = oracle failures (zipfile content
+    for that NAME, the name list, the spec predicate — at every point of the history)."""
+    APK, FileNotPresent = _real()
+    entries = [(n, bytes.fromhex(h), bool(c)) for n, h, c in case["entries"]]
+    raw = write_zip(entries)
+    zf = zipfile.ZipFile(io.BytesIO(raw))
+    names = [n for n, _, _ in entries]
+    if zf.namelist() != names:
+        raise ToolFailure("zipfile lists other names than harness/zipwriter.py wrote (history stream)")
+    zcontent = {n: zf.read(n) for n in names}
+    for n, d, _ in entries:
+        if zcontent[n] != d:
+            raise ToolFailure(f"zipfile reads other bytes than harness/zipwriter.py wrote for {n!a}")
+    want = [n for n in names if spec(n)]
+    try:
+        a = APK(raw, raw=True, skip_analysis=True)
+    except Exception as e:  # noqa
+        return "other:" + type(e).__name__, [("APK raised on a well-formed archive", "an APK object", type(e).__name__)]
+    first, bad, dep = {}, [], None
+
+    def see(key, val, i):
+        nonlocal dep
+        if key in first and first[key] != val and dep is None:
+            dep = f"history-dependent op#{i} {key}: first {first[key]!a} now {val!a}"
+        first.setdefault(key, val)
+
+    for i, op in enumerate(case["ops"]):
+        try:
+            if op[0] == "get":
+                line, got = res_of(lambda: a.get_file(op[1]), FileNotPresent)
+                see(("get", op[1]), line, i)
+                if op[1] in zcontent:
+                    if got != zcontent[op[1]]:
+                        bad.append((f"op#{i} get_file({op[1]!r}) does not return THAT entry's content "
+                                    f"(history: {sum(1 for o in case['ops'][:i] if o[0] in ('get', 'alldex'))} earlier reads)",
+                                    "ok:" + enc_data(zcontent[op[1]]), line))
+                elif line != "missing":
+                    bad.append((f"op#{i} get_file({op[1]!r}) of a missing entry does not raise FileNotPresent", "missing", line))
+            elif op[0] == "files":
+                v = list(a.get_files()); see("files", v, i)
+                if v != names:
+                    bad.append((f"op#{i} get_files differs from the archive's entry names", names, v))
+            elif op[0] == "dexnames":
+                v = list(a.get_dex_names()); see("dex", v, i)
+                if v != want:
+                    bad.append((f"op#{i} get_dex_names is not the root-level classes[0-9]*.dex entries in archive order", want, v))
+            elif op[0] == "alldex":
+                v = [bytes(b) if isinstance(b, (bytes, bytearray)) else b for b in a.get_all_dex()]
+                see("all", ["ok:" + enc_data(b) if isinstance(b, bytes) else "other-type" for b in v], i)
+                if v != [zcontent[n] for n in want]:
+                    bad.append((f"op#{i} get_all_dex does not yield the contents of the DEX entries in archive order",
+                                ["ok:" + enc_data(zcontent[n]) for n in want],
+                                ["ok:" + enc_data(b) if isinstance(b, bytes) else repr(b) for b in v]))
+            else:
+                v = a.is_multidex(); see("multi", v, i)
+                if v is not (len(want) > 1):
+                    bad.append((f"op#{i} is_multidex is not (number of DEX entries > 1)", len(want) > 1, v))
+        except FileNotPresent:
+            see((op[0], "raise"), "missing", i)
+            bad.append((f"op#{i} {op[0]} raises FileNotPresent", "a value", "missing"))
+        except Exception as e:  # noqa
+            see((op[0], "raise"), type(e).__name__, i)
+            bad.append((f"op#{i} {op[0]} raises", "a value", "other:" + type(e).__name__))
+    if dep:
+        return dep, bad
+    qs = history_queries(case)
+    # observations never made in this history are filled from one extra call each (after the history)
+    files = first.get("files", list(a.get_files()))
+    dex = first.get("dex", list(a.get_dex_names()))
+    multi = first.get("multi", a.is_multidex())
+    alld = first.get("all")
+    if alld is None:
+        alld = ["ok:" + enc_data(bytes(b)) for b in a.get_all_dex()]
+    line = (f"files={show_list(enc_name(n) for n in files)} dex={show_list(enc_name(n) for n in dex)} "
+            f"multi={'1' if multi is True else '0' if multi is False else repr(multi)} "
+            f"all={show_list(alld)} get={show_list(first[('get', q)] for q in qs)}")
+    return line, bad
+
+
+def history_queries(case):
+    return list(dict.fromkeys(o[1] for o in case["ops"] if o[0] == "get"))
+
+
+def history_request(case) -> str:
+    es = " ".join(f"{enc_name(n)}:{enc_data(bytes.fromhex(h))}" for n, h, _ in case["entries"])
+    return ("apk " + es + " ? " + " ".join(enc_name(q) for q in history_queries(case))).replace("  ", " ")
+
+
+def compact_archive(case):
+    """a failing single-pass case with every entry removed that is not needed for the failure; the note
+    keeps only the groups that still have an entry in the archive"""
+    def fails(c):
+        try:
+            return bool(oracle(c, observe(c)))
+        except Exception:  # noqa
+            return False
+    c = small(case)
+    c["queries"] = []
+    if not fails(c):
+        c = small(case)
+    i = 0
+    while i < len(c["entries"]):
+        t = dict(c, entries=c["entries"][:i] + c["entries"][i + 1:])
+        if fails(t):
+            c = t
+        else:
+            i += 1
+    if "note" in c:
+        left = [ascii(e[0]) for e in c["entries"]]
+        c["note"] = [t for t in c["note"] if any(n in t for n in left)]
+    return c
+
+
+def compact(case):
+    """a failing history case as it goes into the replay: drop entries and ops that are not needed to
+    show the first failure (greedy, re-running the real code)"""
+    def fails(c):
+        try:
+            return bool(run_history(c)[1])
+        except Exception:  # noqa
+            return False
+    c = small(case)
+    for key in ("ops", "entries"):
+        i = 0
+        while i < len(c[key]):
+            t = dict(c, **{key: c[key][:i] + c[key][i + 1:]})
+            if key == "entries":
+                gone = c["entries"][i][0]
+                t["ops"] = [o for o in t["ops"] if not (o[0] == "get" and o[1] == gone)]
+            if fails(t):
+                c = t
+            else:
+                i += 1
+    if "note" in c:
+        left = [ascii(e[0]) for e in c["entries"]]
+        c["note"] = [t for t in c["note"] if any(n in t for n in left)]
+    return c
+
 # ------------------------------------------------------------------ the check
 def corpus_cases():
     out = []
@@ -356,6 +626,9 @@ def stub_apk(names):
 
 def run(ck: Check):
     APK, FileNotPresent = _real()
+    ck.pins_changed(PINS)
+    big = not ck.quick
+    esc = ck.quick and ck.escalated             # a modelled function changed: 4x sizes in the quick tier (not a verdict)
     ck.run_gen("apkregex")
     ck.prove(exes=["drv_C34"])
     drv = Driver("drv_C34")
@@ -367,7 +640,10 @@ def run(ck: Check):
                "with classes.dex, of a two-entry archive (multidex flag). apkfiles: seeded archives of 0-12 distinct entries "
                "(stored/deflated, 0-2000 bytes: random, repeated, dex-like, text), 0-5 DEX names in random archive order, look-alikes, "
                "nested and non-ASCII names, 2 absent queries (random and near-miss). distinct = distinct name (dexname) / "
-               "distinct (names, sizes, methods) tuple (apkfiles); non-trivial = archives with at least one entry")
+               "distinct (names, sizes, methods) tuple (apkfiles); non-trivial = archives with at least one entry. "
+               "collisions: archives with 1-2 groups of 2-3 entries forged to equal CRC-32 and size (different content) plus "
+               "controls, read in archive order and reversed. history: 4-24 seeded observer calls (+ every entry read forwards "
+               "and backwards) on one APK object over collision archives and ordinary archives")
     # ---- corpus first (witnesses of D17)
     reqs, reals = [], []
     ncorp = 0
@@ -458,7 +734,7 @@ def run(ck: Check):
                    "names_with_newline": sum(1 for n in names if "\n" in n)})
 
     # ---- (b) archives
-    narch = 1500 if ck.quick else 30000
+    narch = 30000 if big else 6000 if esc else 1500
     reqs, reals = [], []
     dist = {"archives": 0, "entries_stored": 0, "entries_deflated": 0, "entries_empty": 0, "entries_ge_300_bytes": 0,
             "archives_multidex": 0, "archives_dex_out_of_numeric_order": 0, "archives_with_lookalike": 0,
@@ -496,6 +772,71 @@ def run(ck: Check):
     dist["dex_names_per_archive"] = {str(k): v for k, v in sorted(hist_d.items())}
     ck.cover(evaluations=narch, distinct=keys, samples=samples, dist=dist)
 
+    # ---- (c) forged CRC-32 collisions and (d) histories on one APK object
+    import zlib
+    ncoll = 6000 if big else 1600 if esc else 400
+    reqs, reals, creqs, creals = [], [], [], []
+    hd = {"collision_archives": 0, "forged_groups": 0, "forged_entries": 0, "forged_groups_dex": 0, "control_groups": 0,
+          "histories": 0, "history_ops": 0, "history_get_ops": 0, "history_get_missing": 0, "history_repeated_reads": 0}
+    hkeys, hsamples = [], []
+    nfail_h = 0
+    for i in range(ncoll):
+        case = gen_collision_archive(rng)
+        # single pass in archive order (get_all_dex first, then every entry), and the same archive reversed
+        for c in (case, dict(case, entries=list(reversed(case["entries"])))):
+            obs = observe(c)
+            creqs.append(request_of(c)); creals.append(real_line(c, obs))
+            bad = oracle(c, obs)
+            if bad:
+                cc = compact_archive(c) if nfail_h < 3 else small(c)
+                nfail_h += 1
+                b2 = oracle(cc, observe(cc)) or bad
+                ck.fail(cc, b2[0][0], None, b2[0][1], b2[0][2])
+        byk = {}
+        for n, h, _ in case["entries"]:
+            d = bytes.fromhex(h)
+            byk.setdefault((zlib.crc32(d), len(d)), set()).add(d)
+        fg = [k for k, v in byk.items() if len(v) > 1]
+        hd["collision_archives"] += 1
+        hd["forged_groups"] += len(fg)
+        hd["forged_entries"] += sum(1 for n, h, _ in case["entries"] if (zlib.crc32(bytes.fromhex(h)), len(h) // 2) in fg)
+        hd["forged_groups_dex"] += sum(1 for t in case["note"] if t.startswith("forged (last") and "classes" in t)
+        hd["control_groups"] += sum(1 for t in case["note"] if t.startswith("control"))
+        hkeys.append(("c", tuple(e[0] for e in case["entries"]), tuple(sorted(fg))))
+        # histories: the collision archive, and every third time an ordinary archive
+        for base in ([case] if i % 3 else [case, gen_archive(rng)]):
+            hc = dict(base, ops=None)
+            hc["ops"] = gen_ops(rng, hc, rng.randrange(4, 25))
+            line, bad = run_history(hc)
+            reqs.append(history_request(hc)); reals.append(line)
+            if bad:
+                if nfail_h < 3:             # shrink only the first few (each shrink re-runs the real code)
+                    cc = compact(hc)
+                    b2 = run_history(cc)[1] or bad
+                else:
+                    cc, b2 = small(hc), bad
+                nfail_h += 1
+                ck.fail(cc, b2[0][0], None, b2[0][1], b2[0][2])
+            gets = [o[1] for o in hc["ops"] if o[0] == "get"]
+            hd["histories"] += 1
+            hd["history_ops"] += len(hc["ops"])
+            hd["history_get_ops"] += len(gets)
+            hd["history_get_missing"] += sum(1 for q in gets if q not in [e[0] for e in hc["entries"]])
+            hd["history_repeated_reads"] += len(gets) - len(set(gets))
+            if len(hsamples) < 2 and i in (1, ncoll // 2):
+                hsamples.append({"entries": [e[0] for e in hc["entries"]], "forged": case["note"][:2],
+                                 "ops": [o[0] if len(o) == 1 else f"get {o[1]!a}" for o in hc["ops"]][:14], "real": line[:200]})
+    ck.compare("collisions", creqs, creals, drv.ask(creqs))
+    ck.compare("history", reqs, reals, drv.ask(reqs))
+    ck.cover(evaluations=2 * ncoll + len(reqs), distinct=hkeys, samples=hsamples, dist=hd)
+    ck.notes.append("history stream: the model is a pure function of the entry list (history-independent); the real APK "
+                    "object is driven through seeded interleavings of get_files/get_file/get_dex_names/get_all_dex/is_multidex "
+                    "with repeated and missing names, every observation is judged against zipfile's content for that NAME at "
+                    "that point, and the canonical line compared with the model is `history-dependent …` as soon as two "
+                    "observations of the same kind differ. collisions stream: entries forged to share (CRC-32, size) with "
+                    "different contents (4 computed trailing bytes), with identical duplicates, empty files, same-size and "
+                    "same-CRC pairs as controls, read in both archive orders.")
+
     ck.assumptions += [
         "reading the zip container (apkInspector.headers.ZipEntry, zlib inflate) is modelled as an abstract entry list, "
         "not verified; it is tied to Python's zipfile and to the bytes the independent writer harness/zipwriter.py put in "
@@ -518,14 +859,32 @@ def replay(ck: Check, rp):
         print("replay (correspondence divergence)", json.dumps(fd, ensure_ascii=True))
         return 0
     print("replay case:", json.dumps(case, ensure_ascii=True))
+    if case.get("ops"):
+        for t in case.get("note", []):
+            print("how forged:", t)
+        print("entries:", [(ascii(n), len(h) // 2, "deflated" if c else "stored") for n, h, c in case["entries"]])
+        print("ops    :", [o[0] if len(o) == 1 else f"get {o[1]!a}" for o in case["ops"]])
+        line, bad = run_history(case)
+        print("real   :", line[:600])
+        for what, exp, got in bad[:6]:
+            print("FAIL   :", what, "| expected", ascii(exp)[:200], "| observed", ascii(got)[:200])
+        if not bad:
+            print("ok     : every observation of this history equals zipfile's content for that name")
+        try:
+            print("model  :", Driver("drv_C34").ask([history_request(case)])[0][:600], "(history-independent)")
+        except Exception as e:  # noqa
+            print("model  : (driver unavailable)", e)
+        return 1 if bad else 0
     if case.get("stub"):
         o = stub_apk([e[0] for e in case["entries"]])
         d = list(o.get_dex_names())
         print("real (stub name list): get_dex_names =", [ascii(x) for x in d], "is_multidex =", o.is_multidex())
         print("spec:                 dex names     =", [ascii(n) for n in o.zip.ns if spec(n)])
         return 1 if d != [n for n in o.zip.ns if spec(n)] else 0
+    for t in case.get("note", []):
+        print("how forged:", t)
     obs = observe(case)
-    print("real :", real_line(case, obs))
+    print("real :", real_line(case, obs)[:1500])
     names = [e[0] for e in case["entries"]]
     want = [n for n in names if spec(n)]
     print("spec : files =", [ascii(n) for n in names], "dex =", [ascii(n) for n in want], "multi =", len(want) > 1)
